@@ -18,6 +18,7 @@ import (
 	standardrules "github.com/attestantio/dirk/rules/standard"
 	"github.com/attestantio/dirk/services/checker"
 	"github.com/attestantio/dirk/services/fetcher"
+	"github.com/attestantio/dirk/services/ruler"
 	"github.com/attestantio/dirk/services/unlocker"
 	"github.com/attestantio/dirk/util/verifhook"
 	"github.com/rs/zerolog"
@@ -84,6 +85,7 @@ var Sites = []struct {
 	{"unlock-false", nil, "sign multisign attest attests propose", false},
 	{"locked-unknown-passphrase", nil, "sign multisign attest attests propose", false},
 	{"rules", []string{"FAILED", "UNKNOWN", "DENIED"}, "sign multisign attest attests propose", false},
+	{"ruler", []string{"FAILED", "UNKNOWN", "DENIED"}, "sign multisign attest attests propose", false},
 	{"rules-list", []string{"short", "all-unknown"}, "attests", true},
 	{"store-fetch-err", nil, "attest attests propose", false},
 	{"store-store-err", nil, "attest propose", false},
@@ -272,6 +274,7 @@ func execute(c *Case, withFaults bool) (*result, []reqData, []*vkit.AccountInfo,
 		WrapChecker:  func(s checker.Service) checker.Service { return &vkit.FaultChecker{Service: s, Plan: plan} },
 		WrapUnlocker: func(u unlocker.Service) unlocker.Service { return &vkit.FaultUnlocker{Service: u, Plan: plan} },
 		WrapRules:    func(r rules.Service) rules.Service { return &vkit.FaultRules{Service: r, Plan: plan} },
+		WrapRuler:    func(r ruler.Service) ruler.Service { return &vkit.FaultRuler{Service: r, Plan: plan} },
 	})
 	if err != nil {
 		return nil, nil, nil, err
